@@ -29,7 +29,7 @@ def run(spec):
     # 1. proof obligations -------------------------------------------------------------
     for g in spec.get('translators', []):
         sh(['python3', os.path.join(HERE, 'tools', 'translate', g)])
-    ok_build, build_log = lean_build()
+    ok_build, build_log = lean_build(spec.get('props', prop))
     audit = {'obligations': 0, 'discharged': 0, 'problems': ['lake build failed'], 'theorems': [],
              'checker_cmd': f'cd {LEAN} && lake build'}
     if ok_build:
